@@ -105,6 +105,14 @@ def extract_witness(m, inputs, entry_heap):
             out[name] = {"kind": k}
         elif k == "const":
             out[name] = v
+        elif k == "dict":
+            def conv(x):
+                if isinstance(x, dict):
+                    return {kk: conv(vv) for kk, vv in x.items()}
+                if isinstance(x, (tuple, list)):
+                    return [conv(y) for y in x]
+                return _val_scalar(m, x)
+            out[name] = conv(v)
         elif k == "ds":
             out[name] = {"error": "dataset witness not extracted (bounded contract evaluation supplies concrete inputs)"}
         else:
